@@ -101,6 +101,16 @@ def run(ctx, res):
     # numeric values: implementation float vs exact rational of the Spec
     nums = [b'0', b'7', b'12.5', b'5.', b'.5', b'1e3', b'1E3', b'1e-3', b'12.5e2', b'.5e1', b'0x10', b'0XfF', b'0x1f.8', b'0X.8', b'0x.08',
             b'0b101', b'0B1', b'0b1.1', b'0b.01', b'0xa.A', b'0xB', b'0xe', b'32767.99', b'0x7fff.ffff']
+    # long fractions (digits far to the right still count): binary up to 48 places, hexadecimal up to 13 places with an integer part
+    # and up to 16 places without one (so that the implementation's float arithmetic rounds at most once)
+    for _ in range(ctx.budget(60, 600)):
+        k = rng.randrange(1, 49)
+        nums.append(rng.choice([b'0b', b'0B']) + rng.choice([b'', b'1', b'101']) + b'.' + bytes(rng.choice(b'01') for _ in range(k - 1)) + b'1')
+        k = rng.randrange(1, 14)
+        nums.append(rng.choice([b'0x', b'0X']) + rng.choice([b'', b'7', b'1f']) + b'.' + bytes(rng.choice(b'0123456789abcdefABCDEF') for _ in range(k - 1)) + rng.choice(b'123456789abcdef').to_bytes(1, 'big'))
+        k = rng.randrange(13, 17)
+        nums.append(b'0x.' + b'0' * (k - 1) + rng.choice(b'123456789abcdef').to_bytes(1, 'big'))
+    nums += [b'0b.0000000000000001', b'0x.00000000000001', b'0b.' + b'0' * 30 + b'1', b'0x.0000000000001', b'0b1.' + b'0' * 20 + b'1']
     g = gen_lua.LuaGen(rng)
     nums += [g.number() for _ in range(ctx.budget(300, 5000))]
     from pico8.lua import lexer
